@@ -1,5 +1,483 @@
 package main
 
+// E2: scalar skeletons. A skeleton is the integer/boolean bookkeeping of one Go function,
+// translated statement by statement into a Gallina function over Z and bool:
+//
+//	x := e ; x = e ; x++ ; x--        let v_x := <e> in
+//	if c { assignments }  [else {..}] let (..) := if <c> then .. else .. in
+//
+// Everything else in the function (calls that build values, early-exit guards that assign
+// nothing followed) is outside the skeleton and skipped - but a skipped statement that assigns a
+// followed variable is a PROBLEM, so an edit that moves the arithmetic elsewhere is noticed.
+// Sub-expressions that are not scalar arithmetic (in.Len(), AsValue(..).Integer()) are opaque:
+// they are listed per skeleton and become parameters. Go's int is int64: + - * are wrapped.
+
+import (
+	"fmt"
+	"go/ast"
+	"go/token"
+	"sort"
+	"strings"
+)
+
+type skelVar struct {
+	key  string // Go source text of the variable: "from", "loopInfo.Counter"
+	kind string // "Z" or "bool"
+}
+
+type skeleton struct {
+	name    string
+	comment string
+	block   func(p *pkgInfo) *ast.BlockStmt
+	params  [][2]string       // Gallina parameters (name, type), in order
+	opaque  map[string]string // Go source text -> Gallina expression over the parameters
+	tracked []skelVar         // the variables followed, in result order
+	initial map[string]string // initial Gallina value of a followed variable that the block does not define
+	stop    string            // stop before the first statement whose source contains this text
+	resCond string            // if set: the result is the condition of the first if whose source contains this text
+}
+
+func galName(v skelVar) string {
+	s := strings.NewReplacer(".", "_", "[", "_", "]", "_").Replace(v.key)
+	if v.kind == "bool" && strings.Contains(v.key, ".") {
+		return "b_" + s
+	}
+	return "v_" + s
+}
+
+type skelGen struct {
+	p    *pkgInfo
+	sk   *skeleton
+	env  *exprEnv
+	vars map[string]skelVar
+	out  []string
+	ok   bool
+}
+
+func (g *skelGen) fail(format string, a ...any) {
+	problem("scalar skeleton %s: %s", g.sk.name, fmt.Sprintf(format, a...))
+	g.ok = false
+}
+
+func (g *skelGen) trExpr(x ast.Expr) string {
+	s, ok := g.env.tr(x)
+	if !ok {
+		g.fail("expression outside the scalar fragment: %s", g.env.src(x))
+		return "0%Z"
+	}
+	return s
+}
+
+// assigned lists the followed variables assigned anywhere inside n, in first-assignment order.
+func (g *skelGen) assigned(n ast.Node) []skelVar {
+	var res []skelVar
+	seen := map[string]bool{}
+	add := func(x ast.Expr) {
+		k := g.env.src(x)
+		if v, ok := g.vars[k]; ok && !seen[k] {
+			seen[k] = true
+			res = append(res, v)
+		}
+	}
+	ast.Inspect(n, func(m ast.Node) bool {
+		switch t := m.(type) {
+		case *ast.AssignStmt:
+			for _, l := range t.Lhs {
+				add(l)
+			}
+		case *ast.IncDecStmt:
+			add(t.X)
+		case *ast.FuncLit:
+			return false
+		}
+		return true
+	})
+	return res
+}
+
+func hasReturn(n ast.Node) bool {
+	found := false
+	ast.Inspect(n, func(m ast.Node) bool {
+		switch m.(type) {
+		case *ast.ReturnStmt:
+			found = true
+		case *ast.FuncLit:
+			return false
+		}
+		return true
+	})
+	return found
+}
+
+func tupleOf(vs []skelVar) string {
+	var names []string
+	for _, v := range vs {
+		names = append(names, galName(v))
+	}
+	if len(names) == 1 {
+		return names[0]
+	}
+	return "(" + strings.Join(names, ", ") + ")"
+}
+
+func patOf(vs []skelVar) string {
+	if len(vs) == 1 {
+		return galName(vs[0])
+	}
+	return "'" + tupleOf(vs)
+}
+
+// stmts translates a statement list into a chain of lets (one string per let, without "in").
+func (g *skelGen) stmts(list []ast.Stmt, indent string) []string {
+	var out []string
+	for _, s := range list {
+		src := nodeString(g.p.fset, s)
+		if g.sk.stop != "" && strings.Contains(src, g.sk.stop) {
+			break
+		}
+		switch t := s.(type) {
+		case *ast.AssignStmt:
+			if len(t.Lhs) == 1 && len(t.Rhs) == 1 {
+				if v, ok := g.vars[g.env.src(t.Lhs[0])]; ok {
+					if t.Tok != token.ASSIGN && t.Tok != token.DEFINE {
+						g.fail("unsupported assignment operator in: %s", src)
+						continue
+					}
+					out = append(out, indent+"let "+galName(v)+" := "+g.trExpr(t.Rhs[0])+" in")
+					continue
+				}
+			}
+			if len(g.assigned(s)) > 0 {
+				g.fail("unsupported assignment to a followed variable: %s", src)
+			}
+		case *ast.IncDecStmt:
+			if v, ok := g.vars[g.env.src(t.X)]; ok {
+				op := "+"
+				if t.Tok == token.DEC {
+					op = "-"
+				}
+				out = append(out, indent+"let "+galName(v)+" := (wrap64 ("+galName(v)+" "+op+" 1)%Z) in")
+			}
+		case *ast.IfStmt:
+			as := g.assigned(t)
+			if len(as) == 0 {
+				continue // a guard or something about values: outside the skeleton
+			}
+			if t.Init != nil || hasReturn(t) {
+				g.fail("a followed variable is assigned in an if with init or return: %s", strings.SplitN(src, "\n", 2)[0])
+				continue
+			}
+			cond := g.trExpr(t.Cond)
+			thenLets := g.stmts(t.Body.List, indent+"    ")
+			elseLets := []string{}
+			switch e := t.Else.(type) {
+			case nil:
+			case *ast.BlockStmt:
+				elseLets = g.stmts(e.List, indent+"    ")
+			default:
+				g.fail("else-if chains are not supported: %s", strings.SplitN(src, "\n", 2)[0])
+			}
+			tup := tupleOf(as)
+			out = append(out, indent+"let "+patOf(as)+" :=")
+			out = append(out, indent+"  if "+cond+" then")
+			out = append(out, thenLets...)
+			out = append(out, indent+"    "+tup)
+			out = append(out, indent+"  else")
+			out = append(out, elseLets...)
+			out = append(out, indent+"    "+tup+" in")
+		default:
+			if _, isDefer := s.(*ast.DeferStmt); isDefer {
+				continue // runs at function exit: after everything the skeleton describes
+			}
+			if len(g.assigned(s)) > 0 {
+				g.fail("a followed variable is assigned in an unsupported statement: %s", strings.SplitN(src, "\n", 2)[0])
+			}
+		}
+	}
+	return out
+}
+
+func nodeString(fset *token.FileSet, n ast.Node) string {
+	var sb strings.Builder
+	printerFprint(&sb, fset, n)
+	return sb.String()
+}
+
+func (sk *skeleton) gen(p *pkgInfo) string {
+	g := &skelGen{p: p, sk: sk, vars: map[string]skelVar{}, ok: true}
+	g.env = &exprEnv{p: p, opaque: map[string]string{}, ints: map[string]bool{}, bools: map[string]bool{}, consts: map[string]int64{}, fn: sk.name}
+	for k, v := range sk.opaque {
+		g.env.opaque[k] = v
+	}
+	for _, v := range sk.tracked {
+		g.vars[v.key] = v
+		if strings.Contains(v.key, ".") {
+			g.env.opaque[v.key] = galName(v)
+		} else if v.kind == "bool" {
+			g.env.bools[v.key] = true
+		} else {
+			g.env.ints[v.key] = true
+		}
+	}
+	blk := sk.block(p)
+	var sig []string
+	for _, pr := range sk.params {
+		sig = append(sig, "("+pr[0]+" : "+pr[1]+")")
+	}
+	var resT []string
+	for _, v := range sk.tracked {
+		resT = append(resT, v.kind)
+	}
+	resType := strings.Join(resT, " * ")
+	if blk == nil {
+		problem("scalar skeleton %s: the function was not found", sk.name)
+		return fmt.Sprintf("(* %s: NOT FOUND in the source *)\n", sk.name)
+	}
+	var body []string
+	// initial values, in a fixed order
+	var keys []string
+	for k := range sk.initial {
+		keys = append(keys, k)
+	}
+	sort.Strings(keys)
+	for _, k := range keys {
+		body = append(body, "  let "+galName(g.vars[k])+" := "+sk.initial[k]+" in")
+	}
+	result := tupleOf(sk.tracked)
+	if sk.resCond != "" {
+		// translate up to the if whose condition is the result
+		var pre []ast.Stmt
+		var cond ast.Expr
+		for _, s := range blk.List {
+			if t, ok := s.(*ast.IfStmt); ok && strings.Contains(nodeString(p.fset, t.Cond), sk.resCond) {
+				cond = t.Cond
+				break
+			}
+			pre = append(pre, s)
+		}
+		if cond == nil {
+			problem("scalar skeleton %s: no if-statement mentions %s", sk.name, sk.resCond)
+			return fmt.Sprintf("(* %s: guard NOT FOUND *)\n", sk.name)
+		}
+		body = append(body, g.stmts(pre, "  ")...)
+		result = g.trExpr(cond)
+		resType = "bool"
+	} else {
+		body = append(body, g.stmts(blk.List, "  ")...)
+	}
+	if len(g.env.oblig) > 0 {
+		problem("scalar skeleton %s: division inside a skeleton is not supported", sk.name)
+	}
+	var sb strings.Builder
+	sb.WriteString("(* " + noComment(sk.comment) + " *)\n")
+	sb.WriteString("Definition " + sk.name + " " + strings.Join(sig, " ") + " : " + resType + " :=\n")
+	for _, l := range body {
+		sb.WriteString(l + "\n")
+	}
+	sb.WriteString("  " + result + ".\n\n")
+	return sb.String()
+}
+
+func noComment(s string) string {
+	return strings.NewReplacer("(*", "( *", "*)", "* )").Replace(s)
+}
+
+// firstFuncLit returns the body of the first function literal with the given parameter names.
+func firstFuncLit(fd *ast.FuncDecl, params ...string) *ast.BlockStmt {
+	var res *ast.BlockStmt
+	if fd == nil || fd.Body == nil {
+		return nil
+	}
+	ast.Inspect(fd.Body, func(n ast.Node) bool {
+		fl, ok := n.(*ast.FuncLit)
+		if !ok || res != nil {
+			return res == nil
+		}
+		var names []string
+		for _, f := range fl.Type.Params.List {
+			for _, nm := range f.Names {
+				names = append(names, nm.Name)
+			}
+		}
+		if len(names) >= len(params) {
+			match := true
+			for i, pn := range params {
+				if names[i] != pn {
+					match = false
+				}
+			}
+			if match {
+				res = fl.Body
+				return false
+			}
+		}
+		return true
+	})
+	return res
+}
+
+// compositeInit reads the composite literal  name := &T{field: value, ..}  in fd and gives the
+// Gallina initial value of every int/bool field of T (zero value where the literal is silent).
+func compositeInit(p *pkgInfo, fd *ast.FuncDecl, varName, typeName string) (fields []skelVar, init map[string]string) {
+	init = map[string]string{}
+	// the struct's int and bool fields, in declaration order
+	for _, f := range p.sortedFiles() {
+		for _, d := range f.Decls {
+			gd, ok := d.(*ast.GenDecl)
+			if !ok || gd.Tok != token.TYPE {
+				continue
+			}
+			for _, s := range gd.Specs {
+				ts := s.(*ast.TypeSpec)
+				st, ok := ts.Type.(*ast.StructType)
+				if !ok || ts.Name.Name != typeName {
+					continue
+				}
+				for _, fl := range st.Fields.List {
+					id, ok := fl.Type.(*ast.Ident)
+					if !ok || (id.Name != "int" && id.Name != "bool") {
+						continue
+					}
+					for _, nm := range fl.Names {
+						kind := "Z"
+						zero := "0%Z"
+						if id.Name == "bool" {
+							kind, zero = "bool", "false"
+						}
+						fields = append(fields, skelVar{key: varName + "." + nm.Name, kind: kind})
+						init[varName+"."+nm.Name] = zero
+					}
+				}
+			}
+		}
+	}
+	if fd == nil || fd.Body == nil {
+		return
+	}
+	found := false
+	ast.Inspect(fd.Body, func(n ast.Node) bool {
+		as, ok := n.(*ast.AssignStmt)
+		if !ok || len(as.Lhs) != 1 || len(as.Rhs) != 1 {
+			return true
+		}
+		id, ok := as.Lhs[0].(*ast.Ident)
+		if !ok || id.Name != varName {
+			return true
+		}
+		x := as.Rhs[0]
+		if u, ok := x.(*ast.UnaryExpr); ok && u.Op == token.AND {
+			x = u.X
+		}
+		cl, ok := x.(*ast.CompositeLit)
+		if !ok {
+			return true
+		}
+		found = true
+		for _, el := range cl.Elts {
+			kv, ok := el.(*ast.KeyValueExpr)
+			if !ok {
+				problem("scalar skeleton: positional composite literal for %s", typeName)
+				continue
+			}
+			k := varName + "." + exprString(p.fset, kv.Key)
+			if _, tracked := init[k]; !tracked {
+				continue
+			}
+			switch v := kv.Value.(type) {
+			case *ast.Ident:
+				if v.Name == "true" || v.Name == "false" {
+					init[k] = v.Name
+					continue
+				}
+			case *ast.BasicLit:
+				if v.Kind == token.INT {
+					init[k] = v.Value + "%Z"
+					continue
+				}
+			}
+			problem("scalar skeleton: initial value of %s is not a literal", k)
+		}
+		return false
+	})
+	if !found {
+		problem("scalar skeleton: %s := &%s{..} not found", varName, typeName)
+	}
+	return
+}
+
 func genScalar(p *pkgInfo) string {
-	return "(* GENERATED by tools/go2v from /repo on every run. Do not edit. *)\nFrom PV Require Import Lib.Bytes Lib.GoInt.\n"
+	var sb strings.Builder
+	sb.WriteString("(* GENERATED by tools/go2v from /repo on every run. Do not edit.\n   E2: scalar skeletons - the integer/boolean bookkeeping of selected Go functions, translated\n   statement by statement (tools/go2v/scalar.go). The obligations that the hand-written model\n   computes the same are in coq/Tie. *)\nFrom PV Require Import Lib.Bytes Lib.GoInt.\nOpen Scope Z_scope.\n\n")
+
+	// ---- filterSlice: the index arithmetic between parsing the bounds and in.Slice(from, to)
+	slice := &skeleton{
+		name:    "go_slice_bounds",
+		comment: "filters_builtin.go filterSlice: from/to as handed to in.Slice, from n = in.Len(), the two parsed bounds and whether the second bound is blank",
+		block: func(p *pkgInfo) *ast.BlockStmt {
+			if fd := p.findFunc("filterSlice"); fd != nil {
+				return fd.Body
+			}
+			return nil
+		},
+		params: [][2]string{{"v_n", "Z"}, {"v_from0", "Z"}, {"v_vto0", "Z"}, {"b_blank", "bool"}},
+		opaque: map[string]string{
+			"in.Len()":                           "v_n",
+			"AsValue(comp[0]).Integer()":         "v_from0",
+			"AsValue(comp[1]).Integer()":         "v_vto0",
+			"strings.TrimSpace(comp[1]) == \"\"": "b_blank",
+		},
+		tracked: []skelVar{{"from", "Z"}, {"to", "Z"}, {"vto", "Z"}},
+		stop:    "in.Slice(",
+	}
+	sb.WriteString(slice.gen(p))
+
+	// ---- the for tag: what one iteration does to the loop information
+	forFd := p.findMethod("tagForNode", "Execute")
+	fields, init := compositeInit(p, forFd, "loopInfo", "tagForLoopInformation")
+	var stParams [][2]string
+	initial := map[string]string{}
+	var initTuple []string
+	for _, f := range fields {
+		stParams = append(stParams, [2]string{galName(f) + "_in", f.kind})
+		initial[f.key] = galName(f) + "_in"
+		initTuple = append(initTuple, init[f.key])
+	}
+	forStep := &skeleton{
+		name:    "go_for_step",
+		comment: "tags_for.go tagForNode.Execute: the loop information after the bookkeeping of iteration idx of count, from the loop information before it (fields in declaration order)",
+		block: func(p *pkgInfo) *ast.BlockStmt {
+			return firstFuncLit(forFd, "idx", "count")
+		},
+		params:  append(stParams, [2]string{"v_idx", "Z"}, [2]string{"v_count", "Z"}),
+		opaque:  map[string]string{"idx": "v_idx", "count": "v_count"},
+		tracked: fields,
+		initial: initial,
+		stop:    "bodyWrapper.Execute(",
+	}
+	sb.WriteString(forStep.gen(p))
+	var fieldNames []string
+	for _, f := range fields {
+		fieldNames = append(fieldNames, strings.TrimPrefix(f.key, "loopInfo."))
+	}
+	sb.WriteString("(* the loop information a for tag starts with (the composite literal in tagForNode.Execute);\n   fields: " + strings.Join(fieldNames, ", ") + " *)\n")
+	sb.WriteString("Definition go_for_init := (" + strings.Join(initTuple, ", ") + ").\n")
+	sb.WriteString("Definition go_for_fields : list (list N) := (" + coqStrList(fieldNames) + ")%N.\n\n")
+
+	// ---- the macro depth guard
+	guard := &skeleton{
+		name:    "go_macro_refuses",
+		comment: "tags_macro.go tagMacroNode.callGuarded: whether a call made when the context's macro depth is v_depth is refused",
+		block: func(p *pkgInfo) *ast.BlockStmt {
+			if fd := p.findMethod("tagMacroNode", "callGuarded"); fd != nil {
+				return fd.Body
+			}
+			return nil
+		},
+		params:  [][2]string{{"v_depth", "Z"}},
+		tracked: []skelVar{{"ctx.macroDepth", "Z"}},
+		initial: map[string]string{"ctx.macroDepth": "v_depth"},
+		resCond: "maxMacroDepth",
+	}
+	sb.WriteString(guard.gen(p))
+	return sb.String()
 }
